@@ -401,7 +401,7 @@ def gen_request_fields(r, pkg, twist=None):
     return grouped, nested
 
 
-def gen_api(r, idx, transport=None, twists=0.0, n_methods=None):
+def gen_api(r, idx, transport=None, twists=0.0, n_methods=None, selective=None):
     pkg, path, _ = r.pick(PKGS)
     P = "." + pkg
     transport = transport or r.pick(["grpc", "grpc", "grpc+rest", "rest"])
@@ -485,7 +485,15 @@ def gen_api(r, idx, transport=None, twists=0.0, n_methods=None):
                         me["http"].append("*")
             svc["methods"].append(me)
         main["services"].append(svc)
-    return {"label": f"api{idx}", "package": pkg, "params": f"transport={transport}", "files": [shared, main]}
+    spec = {"label": f"api{idx}", "package": pkg, "params": f"transport={transport}", "files": [shared, main]}
+    # selective GAPIC generation (service yaml): some RPCs listed, the others generated as internal `_method`s or omitted
+    names = [f"{sv['name']}.{me['name']}" for sv in main["services"] for me in sv["methods"]]
+    if selective is None:
+        selective = r.maybe(0.3)
+    if selective and len(names) >= 2:
+        listed = sorted(r.sample(names, r.randint(1, len(names) - 1)))
+        spec["selective"] = {"listed": listed, "internal": r.maybe(0.65)}
+    return spec
 
 
 # ------------------------------------------------------------------ helpers on a spec
@@ -506,6 +514,33 @@ def methods_of(spec):
         for ss in fs.get("services", []):
             for me in ss["methods"]:
                 yield fs, ss, me
+
+
+def sel_status(spec, ss, me):
+    """selective GAPIC generation (spec["selective"] = {"listed": ["Service.Rpc", …], "internal": bool}), read off the
+    service yaml the way its documentation states it: a listed RPC is public; an unlisted one is generated as an internal
+    `_method` (generate_omitted_as_internal) or not at all; an empty list means no selection"""
+    sel = spec.get("selective")
+    if not sel or not sel.get("listed"):
+        return "public"
+    if f"{ss['name']}.{me['name']}" in sel["listed"]:
+        return "public"
+    return "internal" if sel.get("internal") else "omitted"
+
+
+def emitted_methods(spec):
+    for fs, ss, me in methods_of(spec):
+        if sel_status(spec, ss, me) != "omitted":
+            yield fs, ss, me
+
+
+def selective_yaml(spec):
+    sel = spec["selective"]
+    by_name = {f"{ss['name']}.{me['name']}": fs["package"] for fs, ss, me in methods_of(spec)}
+    return {"type": "google.api.Service", "config_version": 3, "name": "lib.example.com", "publishing": {"library_settings": [
+        {"version": spec["package"], "python_settings": {"common": {"selective_gapic_generation": {
+            "methods": [f"{by_name.get(n, spec['package'])}.{n}" for n in sel["listed"]],
+            "generate_omitted_as_internal": bool(sel.get("internal"))}}}}]}}
 
 
 def transports_of(spec):
@@ -574,7 +609,8 @@ def t2_function_level(ctx, spec, files, facts, api, opts):
     payload = {"spec": spec}
     # ---- generate_sample_specs
     svcs = [{"name": ss["name"], "shortname": host_shortname(ss.get("host", "lib.example.com")),
-             "rpcs": [{"name": me["name"], "internal": False} for me in ss["methods"]]}
+             "rpcs": [{"name": me["name"], "internal": sel_status(spec, ss, me) == "internal"} for me in ss["methods"]
+                      if sel_status(spec, ss, me) != "omitted"]}
             for fs in spec["files"] for ss in fs.get("services", [])]
     ops = [{"op": "c14.specs", "version": api_version(spec["package"]), "grpc": grpc, "rest": rest, "services": svcs}]
     metas = [("specs", None)]
@@ -745,6 +781,52 @@ def t2_raw_renders(ctx, spec, api, opts, out_files, entries, payload):
                          f"are those of the raw render", pl)
         else:
             ctx.count("raw_vs_emitted", "same line kinds")
+
+
+def t2_snippet_index(ctx, r, api, entries, out_files, payload):
+    """real SnippetIndex.add_snippet / get_snippet (what the client templates call to embed a sample in a docstring) vs the
+    model: the emitted metadata entries are added as real Snippet objects in a random order, then every (service, rpc,
+    flavour) slot — and a slot that does not exist — is read back; observable = the region tag of the snippet returned"""
+    from gapic.samplegen_utils import snippet_index, snippet_metadata_pb2
+    from google.protobuf import json_format
+    snips = []
+    for e in entries:
+        text = out_files.get(f"{SDIR}/{e.get('file')}")
+        if text is None:
+            continue
+        try:
+            md = json_format.ParseDict({k: v for k, v in e.items() if k != "segments"}, snippet_metadata_pb2.Snippet())
+            snips.append((e, snippet_index.Snippet(text, md)))
+        except BaseException as ex:  # noqa
+            ctx.disagree("T2:c14.snippet-index", f"could not rebuild the Snippet of {e.get('file')}: {type(ex).__name__}: {ex}", payload)
+            return
+    r.shuffle(snips)
+    keys = [[svc.name, m] for svc in api.services.values() for m in svc.methods]
+    queries = [[k[0], k[1], sy] for k in keys for sy in (True, False)] + [[keys[0][0] if keys else "X", "NoSuchRpc", True], ["NoSuchService", "Get", False]]
+    try:
+        idx = snippet_index.SnippetIndex(api)
+        for _, sn in snips:
+            idx.add_snippet(sn)
+    except BaseException as ex:  # noqa
+        real = {"error": type(ex).__name__}
+    else:
+        out = []
+        for svc, rp, sy in queries:
+            try:
+                got = idx.get_snippet(svc, rp, sync=sy)
+                out.append(got.metadata.region_tag if got is not None else None)
+            except BaseException as ex:  # noqa
+                out.append(type(ex).__name__)
+        real = {"results": out}
+    mo = ctx.driver.ask([{"op": "c14.index", "keys": keys, "queries": queries, "snippets": [
+        {"service": e.get("clientMethod", {}).get("method", {}).get("service", {}).get("shortName", ""),
+         "rpc": e.get("clientMethod", {}).get("method", {}).get("shortName", ""),
+         "async": bool(e.get("clientMethod", {}).get("async")), "tag": e.get("regionTag", "")} for e, _ in snips]}])[0]
+    ctx.traces += 1
+    if {k: mo.get(k) for k in ("results", "error") if k in mo} != real:
+        diff = next(((q, a, b) for q, a, b in zip(queries, mo.get("results") or [], real.get("results") or []) if a != b), None)
+        ctx.disagree("T2:c14.snippet-index", f"get_snippet after add_snippet: first difference (query, model, impl) = {diff}; "
+                     f"model error {mo.get('error')}, impl error {real.get('error')}", payload)
 
 
 WS = [" ", "\t", " ", " ", "\x1f", "  ", "    "]
@@ -999,12 +1081,29 @@ def run_api(ctx, r, spec, label):
     payload = {"spec": spec}
     files = build_files(spec)
     facts = Facts(files)
-    req = apigen.request(files, spec.get("params", ""))
     grpc, rest = transports_of(spec)
     pkg = spec["package"]
     version = api_version(pkg)
     ctx.count("transport", spec.get("params", ""))
-    api, opts, res, err = generate(req)
+    sel = spec.get("selective")
+    ctx.count("selective_generation", "none" if not sel else ("omitted as internal" if sel.get("internal") else "omitted"))
+    yaml_path = None
+    try:
+        params = spec.get("params", "")
+        if sel:
+            import tempfile
+            fd, yaml_path = tempfile.mkstemp(prefix="c14_", suffix=".yaml", dir=genrun.SCRATCH)
+            with os.fdopen(fd, "w") as fh:
+                json.dump(selective_yaml(spec), fh)        # JSON is YAML
+            params += f",service-yaml={yaml_path}"
+        req = apigen.request(files, params)
+        api, opts, res, err = generate(req)
+    finally:
+        if yaml_path:
+            try:
+                os.unlink(yaml_path)
+            except OSError:
+                pass
     if api is None:
         ctx.fail("schema-build-crash:" + err[0], f"API.build raised {err[0]}: {err[1]}", payload)
         return
@@ -1033,9 +1132,11 @@ def run_api(ctx, r, spec, label):
         by_key.setdefault(k, []).append(e)
     # ---------------- oracle 1: one sync (+ one async iff grpc) per RPC, tag format, uniqueness
     want = {}
-    for fs, ss, me in methods_of(spec):
+    for fs, ss, me in emitted_methods(spec):
         for asy in ([False, True] if grpc else ([False] if rest else [])):
             tag = f"{host_shortname(ss.get('host', 'lib.example.com'))}_{version}_generated_{ss['name']}_{me['name']}_{'async' if asy else 'sync'}"
+            if sel_status(spec, ss, me) == "internal":
+                tag += "_internal"
             want[(ss["name"], me["name"], asy)] = tag
     tag_count = {}
     for t in want.values():
@@ -1065,10 +1166,13 @@ def run_api(ctx, r, spec, label):
         if mod != impl:
             ctx.disagree("T3:c14.specs-vs-metadata", f"model {len(mod)} specs vs {len(impl)} metadata entries; first difference "
                          f"{next(((a, b) for a, b in zip(mod, impl) if a != b), None)}", payload)
+    # ---------------- T2: the snippet index the docstrings are filled from
+    if not collide:
+        t2_snippet_index(ctx, r, api, entries, out_files, payload)
     # ---------------- per sample: file, tags, compile, segments
     samples, plan = [], []
     seg_ops, seg_meta = [], []
-    method_by = {(ss["name"], me["name"]): (fs, ss, me) for fs, ss, me in methods_of(spec)}
+    method_by = {(ss["name"], me["name"]): (fs, ss, me) for fs, ss, me in emitted_methods(spec)}
     for k, es in sorted(by_key.items(), key=lambda kv: (str(kv[0][0]), str(kv[0][1]), kv[0][2])):
         if k not in want:
             continue
@@ -1199,7 +1303,8 @@ def run_api(ctx, r, spec, label):
             m = re.match(r"# \[START (.*)\]\s*$", lines[starts[0] - 1]) if len(starts) == 1 else None
             ftag = m.group(1) if m else None
             h = ftag[len(tag) + 1:] if ftag and ftag.startswith(tag + "_") else ""
-            nops.append({"op": "c14.names", "tags": all_tags, "tag": tag, "hash": h, "rpc": me["name"], "internal": False})
+            nops.append({"op": "c14.names", "tags": all_tags, "tag": tag, "hash": h, "rpc": me["name"],
+                         "internal": sel_status(spec, method_by[(pl["service"], me["name"])][1], me) == "internal"})
             flat = me["sigs"][0].split(",") if me.get("sigs") and not me.get("cs") else []
             nops.append({"op": "c14.params", "cs": bool(me.get("cs")), "input_type": "T", "flattened": [[n, "t"] for n in flat]})
             # result type: the model decides presence and wrapping from the RPC's shape in the INPUT descriptors; the element
@@ -1244,7 +1349,8 @@ def run_api(ctx, r, spec, label):
     try:
         session = {"op": "sample_session", "samples": samples}
         if not grpc and rest:
-            locs = [rpc.py_locations(api, api.services[f"{fs['package']}.{ss['name']}"]) for fs in spec["files"] for ss in fs.get("services", [])]
+            locs = [rpc.py_locations(api, api.services[f"{fs['package']}.{ss['name']}"]) for fs in spec["files"] for ss in fs.get("services", [])
+                    if f"{fs['package']}.{ss['name']}" in api.services]
             session["rest"] = {"transports": [l["rest"] for l in locs]}
         items = []
         for (e, pl, fs, ss, me, asy, form, path_rpc) in plan:
@@ -1377,12 +1483,16 @@ def run_api(ctx, r, spec, label):
             bad.append(f"method.fullName {cm.get('method', {}).get('fullName')!r}")
         if bad:
             ctx.fail("metadata-vs-client", f"{fname}: " + "; ".join(bad), pl)
-        # ---- oracle 5: docstring snippet == text between the tags (blank lines aside: fix_whitespace reflows the client module)
+        # ---- oracle 5: for the client method this entry names (sync or asyncio class, public or internal `_method`) the
+        # `.. code-block:: python` part of its docstring is the text between START and END of THIS sample — the one whose
+        # metadata names that method and that flavour (blank lines aside: fix_whitespace reflows the client module)
         doc = info.get("doc")
         text = out_files.get(f"{SDIR}/{fname}", "")
         ls = text.splitlines()
         st = [i for i, l in enumerate(ls) if l.startswith("# [START")]
         en = [i for i, l in enumerate(ls) if l.startswith("# [END")]
+        status = sel_status(spec, ss, me)
+        ctx.count("docstring_checked", f"{'asyncio' if asy else 'sync'} client, {status} method")
         if doc is not None and len(st) == 1 and len(en) == 1:
             between = [l.rstrip() for l in ls[st[0] + 1:en[0]] if l.strip()]
             dl = doc.splitlines()
@@ -1393,16 +1503,28 @@ def run_api(ctx, r, spec, label):
             except StopIteration:
                 block = None
             want_block = [" " * 12 + l for l in between]
-            if block != want_block:
-                ctx.fail("docstring-snippet", f"{fname}: the snippet in {client_short}.{cm.get('shortName')}.__doc__ is not the text between the tags "
-                         f"(first difference: {next(((x, y) for x, y in zip(block or [], want_block) if x != y), (len(block or []), len(want_block)))})", pl)
+            where = f"{client_short}.{cm.get('shortName')}.__doc__ ({'asyncio' if asy else 'sync'} client, {status} method)"
+            if block is None:
+                ctx.fail("docstring-sample-missing", f"{fname}: {where} embeds no sample, although the sample with region tag "
+                         f"{e.get('regionTag')!r} names this method", pl)
+            elif block != want_block:
+                other = by_key.get((ss["name"], me["name"], not asy), [])
+                otext = out_files.get(f"{SDIR}/{other[0].get('file')}", "") if len(other) == 1 else ""
+                ols = otext.splitlines()
+                ost = [i for i, l in enumerate(ols) if l.startswith("# [START")]
+                oen = [i for i, l in enumerate(ols) if l.startswith("# [END")]
+                is_other = (len(ost) == 1 and len(oen) == 1 and
+                            block == [" " * 12 + l.rstrip() for l in ols[ost[0] + 1:oen[0]] if l.strip()])
+                ctx.fail("docstring-sample-mismatch", f"{fname}: the snippet in {where} is not the text between the tags"
+                         + (f": it is the {'sync' if asy else 'asyncio'} sample {other[0].get('file')}" if is_other else "")
+                         + f" (first difference: {next(((x, y) for x, y in zip(block, want_block) if x != y), (len(block), len(want_block)))})", pl)
             mfull = fulls.get(fname)
             if mfull is not None and block is not None:
                 ctx.traces += 1
                 if [" " * 12 + l.rstrip() for l in mfull.splitlines() if l.strip()] != block:
                     ctx.disagree("T3:c14.docstring-vs-model", f"{fname}: model full snippet vs docstring block differ", pl)
         elif info.get("method_ok") and doc is None:
-            ctx.fail("docstring-snippet", f"{fname}: method has no docstring", pl)
+            ctx.fail("docstring-sample-missing", f"{fname}: method has no docstring", pl)
     return out_files
 
 
@@ -1425,7 +1547,8 @@ def run(ctx):
                 "fields / a oneof used twice or more in a request tree: sibling fields, nested after top level, at two depths, as "
                 "first member of two oneofs), 0..2 oneofs, non-required noise "
                 "(maps, optional, repeated messages), requests from other packages (google.iam.v1, google.protobuf.Empty), flattened "
-                "signatures, transports grpc | grpc+rest | rest; one case = one emitted sample; distinct by (API spec, service, rpc, "
+                "signatures, transports grpc | grpc+rest | rest, selective generation (none | unlisted RPCs internal | unlisted RPCs "
+                "omitted; 1..n-1 RPCs listed); one case = one emitted sample; distinct by (API spec, service, rpc, "
                 "sync/async, file); every case is non-trivial (a sample is compiled, executed against the loopback server and checked)")
     ctx.assume("docstring comparison ignores blank lines and trailing blanks: gapic.generator.formatter.fix_whitespace reflows blank lines of the client module (C20's subject)")
     ctx.assume("default credentials and channel creation are stubbed (google.auth.default, grpc_helpers[_async].create_channel, REST transport host): external to the emitted code")
@@ -1433,7 +1556,10 @@ def run(ctx):
     ctx.assume("REST-only APIs are generated without client-streaming RPCs (the REST transport raises NotImplementedError for them by design)")
     ctx.assume("request field names are not words the generator renames (`class` -> `class_`): C12's subject")
     ctx.assume("flattened signature fields are not named request/requests/retry/timeout/metadata (duplicate parameter in the emitted client: C05/C12's subject)")
-    ctx.assume("selective generation (`_internal` region-tag suffix) is not generated here (C16's subject); the model carries the flag")
+    ctx.assume("which RPCs and types selective generation keeps is C16's subject; here a listed RPC is public, an unlisted one internal "
+               "(generate_omitted_as_internal) or absent, and the samples/metadata/docstrings of what IS emitted are checked")
+    ctx.assume("RPC names that are Python keywords are not generated as internal methods (`_import` vs `_import_`: the gap of "
+               "render_method_name noted in the model)")
     r = ctx.rng("apis")
     # ---- corpus first (the known findings' inputs and past failures)
     seg_texts = []
@@ -1498,9 +1624,10 @@ CLAIM = dict(
           "request fields is populated; termination of default request construction under an acyclicity hypothesis and divergence "
           "without it; totality/characterisation of the calling form. Tie: T1 bridge of the four marker regexes; T2 "
           "generate_sample_specs, CallingForm.method_default, generate_request_object, validate_and_transform_request, "
-          "Snippet._parse_snippet_segments vs the model; T3 every emitted sample compiled and EXECUTED against loopback gRPC/HTTP "
+          "Snippet._parse_snippet_segments, SnippetIndex.add_snippet/get_snippet (filed by the async flag, whatever the tag) vs the model; T3 every emitted sample compiled and EXECUTED against loopback gRPC/HTTP "
           "servers, the received request decoded under the input descriptors and compared with the model, metadata vs file vs the "
-          "imported client (names, parameters, result type; stream shape of the result and of the request parameter per calling form, sync "
+          "imported client — sync and asyncio classes, public and internal `_method`s under selective generation — (names, parameters, "
+          "result type; stream shape of the result and of the request parameter per calling form, sync "
           "and asyncio: metadata vs return/parameter annotation vs whether the sample iterates the call's value; model: resultType is "
           "Iterable[…] exactly for the server-/bidi-streaming forms), docstring snippet vs the text between the tags; "
           "model-independent oracle."),
